@@ -2,10 +2,12 @@
   C10 — Backend responses are relayed faithfully; broken ones never look complete.
   Property theorems only; helper lemmas live in LtVerif/Proofs/BackendResp.lean.
 
-  The models describe the property-conforming behaviour where the pinned C deviates from it
-  (defects reported by the check, see tools/ltv/props/c10.py): the CR check of the backend
-  chunked decoder, the CR left in merged trailer values, `gw_dechunk->done = 0` for a response
-  without Status, and the missing keep-alive reset for a truncated Content-Length body.
+  The models describe the code with the C10 repairs applied (seeded/C10-fixes; the reverse patches
+  are seeds C10-D*): the CR check of the backend chunked decoder, the CR left in merged trailer
+  values, `gw_dechunk->done = 0` for a response without Status, the missing keep-alive reset for
+  a truncated Content-Length body, an invalid Content-Length relayed verbatim, a partial body
+  presented under a computed Content-Length while the client-side head is still unsent (now 502),
+  and END_STREAM instead of RST_STREAM on HTTP/2 after a backend failure.
 -/
 import LtVerif.Proofs.BackendResp
 namespace LtVerif.C10
@@ -388,60 +390,112 @@ theorem c10_failure_before_head_is_5xx (cfg : Cfg) (st : St) (e : End)
     every history that led to the state. -/
 theorem c10_failure_after_head_aborts (cfg : Cfg) (st : St) (e : End)
     (hv : cfg.ver ≤ 1) (hc : st.cstate = .write) (ho : st.open_ = true) (hs : st.started = true)
-    (_hf : st.finished = false)
-    (he : e = .rst ∨ e = .err ∨ (cfg.be = .fcgi ∧ (e = .eof ∨ e = .hup) ∧ st.fcgi.ended = false)) :
+    (hsent : st.hdrSent = true) (he : FailEnd cfg st e) :
     (onEnd cfg st e).keepAlive = false ∧ (onEnd cfg st e).cstate = .done ∧
     (onEnd cfg st e).handler = false ∧ (onEnd cfg st e).evs = pushW st.evs st.wq := by
-  have hne : e ≠ .none := by rcases he with h | h | ⟨_, h | h, _⟩ <;> simp [h]
   have hv2 : ¬ (cfg.ver ≥ 2) := by omega
-  rw [onEnd_active cfg st e (Or.inr hc) ho hne (by simp [lostHandler, hc])]
-  have hg : gwRecvEnd cfg st e = { st with open_ := false, handler := false, keepAlive := false, finished := true } := by
-    rcases he with h | h | ⟨hb, h | h, hfe⟩
-    · subst h; simp [gwRecvEnd, gwBackendError, gwClose, backendError, hs]
-    · subst h; simp [gwRecvEnd, gwBackendError, gwClose, backendError, hs]
-    · subst h; simp [gwRecvEnd, gwBackendError, gwClose, backendError, hs, hb, hfe]
-    · subst h; simp [gwRecvEnd, gwBackendError, gwClose, backendError, hs, hb, hfe]
-  rw [hg]
+  rw [onEnd_active cfg st e (Or.inr hc) ho he.ne_none (by simp [lostHandler, hc]),
+      gwRecvEnd_fail cfg st e hs he, gwBackendError_sent cfg st hs hsent]
   simp [conStep, hc, hv2, h1Progress, flush]
 
-/-- **A Content-Length body cut short by backend EOF closes the connection** (HTTP/1.x): fewer
-    bytes than announced were received (`scratch > 0`) when the backend closes — before or after the
-    response head was sent —, so keep-alive is cleared; with the head not yet sent the client gets
-    `Connection: close` and the (too large) Content-Length, so the truncation is visible either way.
-    (This is the behaviour the property demands; the pinned C keeps the connection alive.) -/
-theorem c10_truncated_content_length_closes (cfg : Cfg) (st : St)
-    (hbe : cfg.be ≠ .fcgi) (hh : st.handler = true)
-    (hc : st.cstate = .handle ∨ st.cstate = .write)
-    (hs : st.started = true) (hf : st.finished = false) (hsc : st.scratch > 0) (hnc : st.sendChunked = false) :
-    (gwRecvEnd cfg st .eof).keepAlive = false ∧ (gwRecvEnd cfg st .eof).finished = true ∧
-    (gwRecvEnd cfg st .eof).wq = st.wq ∧ (gwRecvEnd cfg st .eof).scratch = st.scratch := by
-  have hnd : ¬ (st.cstate = .done) := by rcases hc with h | h <;> simp [h]
-  by_cases hv : cfg.ver = 1 <;>
-    simp [gwRecvEnd, hbe, gwClose, hh, backendDone, hnd, hs, hf, hsc, chunkClose, hnc, hv]
+/-- **Backend failure after the backend's head was parsed but before the client-side head was
+    written ⇒ 502** (HTTP/1.x; stream-response-body = 0, or the failure arrives together with the
+    head).  Whatever part of the body was buffered is discarded, the backend's fields are
+    dropped, and the client gets lighttpd's own complete `502` error response — never the
+    partial body under a computed Content-Length. -/
+theorem c10_failure_before_client_head_is_502 (cfg : Cfg) (st : St) (e : End)
+    (hv : cfg.ver ≤ 1) (hc : st.cstate = .handle) (ho : st.open_ = true) (hs : st.started = true)
+    (hh : st.handler = true) (hsent : st.hdrSent = false) (he : FailEnd cfg st e) :
+    (onEnd cfg st e).status = 502 ∧ (onEnd cfg st e).cstate = .done ∧
+    (onEnd cfg st e).keepAlive = st.keepAlive ∧
+    ∃ fields, (onEnd cfg st e).evs = pushW st.evs
+      (h1StatusLine cfg 502 ++ fields ++ crlf ++ crlf ++ (if cfg.head then [] else errorPage 502)) := by
+  rw [onEnd_active cfg st e (Or.inl hc) ho he.ne_none (by simp [lostHandler, hh]),
+      gwRecvEnd_fail cfg st e hs he, gwBackendError_unsent cfg st hs hsent]
+  obtain ⟨b1, b2, b3, b4, b5, _⟩ := backendIncomplete_proj st
+  generalize hst1 : ({ (backendIncomplete st) with open_ := false } : St) = st1
+  have s1 : st1.status = 502 := by rw [← hst1]; exact b1
+  have s2 : st1.handler = false := by rw [← hst1]; exact b2
+  have s3 : st1.cstate = .handle := by rw [← hst1]; simp [b3, hc]
+  have s4 : st1.open_ = false := by rw [← hst1]
+  have s5 : st1.keepAlive = st.keepAlive := by rw [← hst1]; exact b4
+  have s6 : st1.evs = st.evs := by rw [← hst1]; exact b5
+  obtain ⟨c1, c2, c3, ⟨f, c4⟩⟩ := conStep_errdoc cfg st1 hv s3 s4 s2 (by omega) (by omega)
+  refine ⟨by rw [c1, s1], c2, by rw [c3, s5], ⟨f, ?_⟩⟩
+  rw [c4, s1, s6]
 
-/-- **A chunked backend body cut short by backend EOF is never terminated towards the client**
-    (HTTP/1.1, chunked encoding passed through): the decoder is not done when the backend closes,
-    so no last-chunk is written and keep-alive is cleared — the client sees an unterminated
-    chunked message followed by connection close. -/
-theorem c10_truncated_chunked_closes (cfg : Cfg) (st : St) (d : DcSt)
-    (hbe : cfg.be ≠ .fcgi) (hv : cfg.ver = 1) (hc : st.cstate = .write) (ho : st.open_ = true)
-    (hh : st.handler = true) (hs : st.started = true) (hf : st.finished = false)
-    (hsc : st.sendChunked = true) (hd : st.dc = some d) (hdd : st.dcDone = 0) :
+/-- **A body cut short by backend EOF before the client-side head was written ⇒ 502**
+    (HTTP/1.x): fewer bytes than the announced Content-Length (`scratch > 0`) or a chunked body
+    whose decoder is not done (`bodyTruncated`) when the backend closes. -/
+theorem c10_truncated_before_client_head_is_502 (cfg : Cfg) (st : St)
+    (hv : cfg.ver ≤ 1) (hbe : cfg.be ≠ .fcgi) (hc : st.cstate = .handle) (ho : st.open_ = true)
+    (hs : st.started = true) (hh : st.handler = true) (hf : st.finished = false)
+    (hsent : st.hdrSent = false) (ht : bodyTruncated st = true) :
+    (onEnd cfg st .eof).status = 502 ∧ (onEnd cfg st .eof).cstate = .done ∧
+    (onEnd cfg st .eof).keepAlive = st.keepAlive ∧
+    ∃ fields, (onEnd cfg st .eof).evs = pushW st.evs
+      (h1StatusLine cfg 502 ++ fields ++ crlf ++ crlf ++ (if cfg.head then [] else errorPage 502)) := by
+  rw [onEnd_active cfg st .eof (Or.inl hc) ho (by simp) (by simp [lostHandler, hh])]
+  have hg : gwRecvEnd cfg st .eof = { (backendIncomplete st) with open_ := false } := by
+    have h0 : gwRecvEnd cfg st .eof = gwClose cfg st := by simp [gwRecvEnd, hbe]
+    rw [h0, gwClose_handler cfg st hh,
+        backendDone_truncated_unsent cfg { st with open_ := false } hc hs hf hsent ht]
+    simp [backendIncomplete, bodyClear]
+  rw [hg]
+  obtain ⟨b1, b2, b3, b4, b5, _⟩ := backendIncomplete_proj st
+  generalize hst1 : ({ (backendIncomplete st) with open_ := false } : St) = st1
+  have s1 : st1.status = 502 := by rw [← hst1]; exact b1
+  have s2 : st1.handler = false := by rw [← hst1]; exact b2
+  have s3 : st1.cstate = .handle := by rw [← hst1]; simp [b3, hc]
+  have s4 : st1.open_ = false := by rw [← hst1]
+  have s5 : st1.keepAlive = st.keepAlive := by rw [← hst1]; exact b4
+  have s6 : st1.evs = st.evs := by rw [← hst1]; exact b5
+  obtain ⟨c1, c2, c3, ⟨f, c4⟩⟩ := conStep_errdoc cfg st1 hv s3 s4 s2 (by omega) (by omega)
+  refine ⟨by rw [c1, s1], c2, by rw [c3, s5], ⟨f, ?_⟩⟩
+  rw [c4, s1, s6]
+
+/-- **A body cut short by backend EOF after the client-side head was written closes the
+    connection** (HTTP/1.x): a Content-Length body with fewer bytes than announced, or a chunked
+    backend body whose decoder is not done, is never terminated towards the client — no
+    last-chunk, nothing appended, keep-alive cleared: the client sees an incomplete message
+    followed by connection close.  (`hpt`: lighttpd sends chunked on its own only when no
+    Content-Length is known, i.e. a truncated body that is sent chunked is a chunked backend body.) -/
+theorem c10_truncated_after_head_closes (cfg : Cfg) (st : St)
+    (hv : cfg.ver ≤ 1) (hbe : cfg.be ≠ .fcgi) (hc : st.cstate = .write) (ho : st.open_ = true)
+    (hh : st.handler = true) (hf : st.finished = false)
+    (hsent : st.hdrSent = true) (ht : bodyTruncated st = true)
+    (hpt : st.sendChunked = true → st.dc.isSome = true) :
     (onEnd cfg st .eof).keepAlive = false ∧ (onEnd cfg st .eof).cstate = .done ∧
     (onEnd cfg st .eof).evs = pushW st.evs st.wq := by
   have hv2 : ¬ (cfg.ver ≥ 2) := by omega
   rw [onEnd_active cfg st .eof (Or.inr hc) ho (by simp) (by simp [lostHandler, hc])]
-  have hg : gwRecvEnd cfg st .eof = { st with open_ := false, keepAlive := false, finished := true } := by
-    by_cases hsp : st.scratch > 0 <;>
-      simp [gwRecvEnd, hbe, gwClose, hh, backendDone, hc, hs, hf, chunkClose, hsc, hd, hdd, hv, hsp]
-  rw [hg]
-  simp [conStep, hc, hv2, h1Progress, flush]
+  have h0 : gwRecvEnd cfg st .eof = gwClose cfg st := by simp [gwRecvEnd, hbe]
+  rw [h0, gwClose_handler cfg st hh,
+      backendDone_truncated_sent cfg { st with open_ := false } hc hf hsent ht]
+  generalize hst2 : ({ st with open_ := false } : St) = st2
+  have hpt2 : (backendAbort cfg st2).sendChunked = true → (backendAbort cfg st2).dc.isSome = true := by
+    rw [← hst2]; simpa [backendAbort] using hpt
+  obtain ⟨k1, k2, k3, _, _, k6⟩ := chunkClose_noappend (backendAbort cfg st2) hpt2
+  have hka : (chunkClose (backendAbort cfg st2)).keepAlive = false := by
+    cases hk : (chunkClose (backendAbort cfg st2)).keepAlive
+    · rfl
+    · have := k6 hk; simp [backendAbort] at this
+  have e1 : st2.cstate = .write := by rw [← hst2]; exact hc
+  have e2 : st2.wq = st.wq := by rw [← hst2]
+  have e3 : st2.evs = st.evs := by rw [← hst2]
+  by_cases h1 : cfg.ver = 1
+  · simp only [h1, if_true]
+    have c1 : (chunkClose (backendAbort cfg st2)).cstate = .write := by rw [k3]; simp [backendAbort, e1]
+    have c2 : (chunkClose (backendAbort cfg st2)).wq = st.wq := by rw [k1]; simp [backendAbort, e2]
+    have c3 : (chunkClose (backendAbort cfg st2)).evs = st.evs := by rw [k2]; simp [backendAbort, e3]
+    simp [conStep, c1, h1Progress, flush, c2, c3, hka, h1]
+  · simp [h1, conStep, e1, e2, e3, backendAbort, hv2, h1Progress, flush]
 
 /-- **Clean EOF completes an EOF-delimited body** (HTTP/1.1, lighttpd chunk-encodes): the
     last-chunk is written exactly then, keep-alive stays as it was. -/
 theorem c10_clean_eof_terminates_chunked (cfg : Cfg) (st : St)
     (hbe : cfg.be ≠ .fcgi) (hv : cfg.ver = 1) (hc : st.cstate = .write) (ho : st.open_ = true)
-    (hh : st.handler = true) (hs : st.started = true) (hf : st.finished = false)
+    (hh : st.handler = true) (hf : st.finished = false)
     (hsc : st.sendChunked = true) (hd : st.dc = none) (hsp : st.scratch < 0) :
     (onEnd cfg st .eof).keepAlive = st.keepAlive ∧ (onEnd cfg st .eof).cstate = .done ∧
     (onEnd cfg st .eof).evs = pushW st.evs (st.wq ++ ofString "0\r\n\r\n") := by
@@ -450,10 +504,35 @@ theorem c10_clean_eof_terminates_chunked (cfg : Cfg) (st : St)
   rw [onEnd_active cfg st .eof (Or.inr hc) ho (by simp) (by simp [lostHandler, hc])]
   have hg : gwRecvEnd cfg st .eof =
       { st with open_ := false, finished := true, wq := st.wq ++ ofString "0\r\n\r\n" } := by
-    simp [gwRecvEnd, hbe, gwClose, hh, backendDone, hc, hs, hf, chunkClose, hsc, hd, hv, hsp2]
+    simp [gwRecvEnd, hbe, gwClose, hh, backendDone, hc, hf, chunkClose, hsc, hd, hv, hsp2, bodyTruncated]
   rw [hg]
   simp [conStep, hc, hv2, h1Progress, flush]
 
+/-- **HTTP/2: a response cut off after HEADERS resets the stream.**  After the response head
+    went out on an HTTP/2 stream, a backend failure flags the stream, and the stream ends with
+    RST_STREAM instead of END_STREAM; what was queued but not yet framed is dropped.  (Model of
+    the repaired http-header-glue.c / h2.c lines; h2.c itself is exercised end to end by the
+    check's real-server stream.) -/
+theorem c10_h2_failure_resets_stream (cfg : Cfg) (st : St) (e : End)
+    (hv : cfg.ver ≥ 2) (hc : st.cstate = .write) (ho : st.open_ = true) (hs : st.started = true)
+    (hsent : st.hdrSent = true) (he : FailEnd cfg st e) :
+    (onEnd cfg st e).cstate = .done ∧ (onEnd cfg st e).evs = st.evs ++ [.rst] := by
+  rw [onEnd_active cfg st e (Or.inr hc) ho he.ne_none (by simp [lostHandler, hc]),
+      gwRecvEnd_fail cfg st e hs he, gwBackendError_sent cfg st hs hsent]
+  simp [conStep, hc, hv, h2Progress]
+
+/-- ... and so does a body cut short by backend EOF (short of Content-Length / inside a chunked body). -/
+theorem c10_h2_truncated_resets_stream (cfg : Cfg) (st : St)
+    (hv : cfg.ver ≥ 2) (hbe : cfg.be ≠ .fcgi) (hc : st.cstate = .write) (ho : st.open_ = true)
+    (hh : st.handler = true) (hf : st.finished = false)
+    (hsent : st.hdrSent = true) (ht : bodyTruncated st = true) :
+    (onEnd cfg st .eof).cstate = .done ∧ (onEnd cfg st .eof).evs = st.evs ++ [.rst] := by
+  have hv1 : ¬ (cfg.ver = 1) := by omega
+  rw [onEnd_active cfg st .eof (Or.inr hc) ho (by simp) (by simp [lostHandler, hc])]
+  have h0 : gwRecvEnd cfg st .eof = gwClose cfg st := by simp [gwRecvEnd, hbe]
+  rw [h0, gwClose_handler cfg st hh,
+      backendDone_truncated_sent cfg { st with open_ := false } hc hf hsent ht]
+  simp [hv1, conStep, hc, hv, h2Progress, backendAbort]
 
 
 /-- **A kept-alive HTTP/1.x response always announces its length** (failure isolation): after
@@ -537,68 +616,84 @@ theorem c10_segmentation (d : DcSt) (f : FrSt) (st : St) (a b : Bytes)
     (appendMem (appendMem st a).1 b).1 = (appendMem st (a ++ b)).1 :=
   ⟨c10_dechunk_segmentation d a b, c10_fcgi_segmentation f a b, c10_body_segmentation_plain st a b hd hsc⟩
 
-/-- `c10_broken_never_complete` of DESIGN §6, the part that holds of the code (HTTP/1.x): when the
-    backend connection fails (reset / socket error), then
-    * before the backend's response head is complete the client gets lighttpd's own `500`;
-    * after the client-side response head has been written the message is aborted: nothing more
-      is written (no last-chunk, no further body bytes) and the connection is closed.
-    MISSING for the full statement (and false of the code, see
-    `c10_buffered_failure_looks_complete_witness`): a failure after the backend head was parsed
-    but before the client head was written (stream-response-body = 0, or the failure hits in the
-    read that completed the head) yields a 200 with a computed Content-Length; HTTP/2 streams end
-    with END_STREAM. -/
-theorem c10_broken_never_complete_partial (cfg : Cfg) (st : St) (e : End) (hv : cfg.ver ≤ 1)
-    (ho : st.open_ = true) (he : e = .rst ∨ e = .err)
-    (hst : (st.cstate = .handle ∧ st.started = false ∧ st.handler = true ∧ st.status = 0 ∧
-            st.fcgi.ended = false) ∨
-           (st.cstate = .write ∧ st.started = true ∧ st.finished = false)) :
-    ((onEnd cfg st e).status = 500 ∧ (onEnd cfg st e).cstate = .done) ∨
+/-- the client-side state machine and the "response head sent" flag agree (holds in every state
+    the relay reaches: the head is written exactly at the handle → write transition, which needs
+    the backend's head) -/
+def HeadConsistent (st : St) : Prop :=
+  (st.cstate = .handle ∧ st.hdrSent = false) ∨ (st.cstate = .write ∧ st.hdrSent = true ∧ st.started = true)
+
+/-- how the backend stream can break while a response is being relayed -/
+inductive Broken (cfg : Cfg) (st : St) : End → Prop
+  /-- the backend goes away (any way) before its response head is complete -/
+  | noHead (e : End) : st.started = false → st.status = 0 → st.fcgi.ended = false → e ≠ .none → Broken cfg st e
+  /-- connection reset / socket error / FastCGI end of stream without END_REQUEST, body not finished -/
+  | failed (e : End) : st.started = true → FailEnd cfg st e → Broken cfg st e
+  /-- backend EOF short of the announced Content-Length or inside a chunked body -/
+  | truncated : st.started = true → cfg.be ≠ .fcgi → bodyTruncated st = true →
+      (st.sendChunked = true → st.dc.isSome = true) → Broken cfg st .eof
+
+/-- `c10_broken_never_complete` of DESIGN §6 (HTTP/1.x): a backend response that is cut off — no
+    complete head, connection failure, FastCGI stream without END_REQUEST, EOF short of
+    Content-Length or inside a chunked body — is never presented as a complete successful
+    response, whatever was relayed before (any state `st` with an unfinished response): as long
+    as the client-side response head has not been written the client gets lighttpd's own complete
+    `500`/`502` error response; afterwards nothing more is written (no last-chunk, no further
+    body), keep-alive is cleared and the response ends, i.e. the connection is closed after a
+    visibly incomplete message.  HTTP/2: `c10_h2_failure_resets_stream`,
+    `c10_h2_truncated_resets_stream`. -/
+theorem c10_broken_never_complete (cfg : Cfg) (st : St) (e : End) (hv : cfg.ver ≤ 1)
+    (ho : st.open_ = true) (hh : st.handler = true) (hf : st.finished = false)
+    (hcons : HeadConsistent st) (hb : Broken cfg st e) :
+    (((onEnd cfg st e).status = 500 ∨ (onEnd cfg st e).status = 502) ∧ (onEnd cfg st e).cstate = .done ∧
+      ∃ fields, (onEnd cfg st e).evs = pushW st.evs
+        (h1StatusLine cfg (onEnd cfg st e).status ++ fields ++ crlf ++ crlf ++
+          (if cfg.head then [] else errorPage (onEnd cfg st e).status))) ∨
     ((onEnd cfg st e).keepAlive = false ∧ (onEnd cfg st e).cstate = .done ∧
      (onEnd cfg st e).evs = pushW st.evs st.wq) := by
-  have hne : e ≠ .none := by rcases he with h | h <;> simp [h]
-  rcases hst with ⟨hc, hs, hh, h0, hfe⟩ | ⟨hc, hs, hf⟩
-  · left
-    obtain ⟨a, b, _, _⟩ := c10_failure_before_head_is_5xx cfg st e hv hc ho hs hh h0 hne hfe
-    exact ⟨a, b⟩
-  · right
-    obtain ⟨a, b, _, d⟩ := c10_failure_after_head_aborts cfg st e hv hc ho hs hf
-      (by rcases he with h | h <;> simp [h])
-    exact ⟨a, b, d⟩
+  cases hb with
+  | noHead e hs h0 hfe hne =>
+    rcases hcons with ⟨hc, _⟩ | ⟨_, _, hs'⟩
+    · left
+      obtain ⟨a, b, _, ⟨f, d⟩⟩ := c10_failure_before_head_is_5xx cfg st e hv hc ho hs hh h0 hne hfe
+      exact ⟨Or.inl a, b, ⟨f, by rw [a]; exact d⟩⟩
+    · rw [hs] at hs'; cases hs'
+  | failed e hs hfail =>
+    rcases hcons with ⟨hc, hsent⟩ | ⟨hc, hsent, _⟩
+    · left
+      obtain ⟨a, b, _, ⟨f, d⟩⟩ := c10_failure_before_client_head_is_502 cfg st e hv hc ho hs hh hsent hfail
+      exact ⟨Or.inr a, b, ⟨f, by rw [a]; exact d⟩⟩
+    · right
+      obtain ⟨a, b, _, d⟩ := c10_failure_after_head_aborts cfg st e hv hc ho hs hsent hfail
+      exact ⟨a, b, d⟩
+  | truncated hs hbe ht hpt =>
+    rcases hcons with ⟨hc, hsent⟩ | ⟨hc, hsent, _⟩
+    · left
+      obtain ⟨a, b, _, ⟨f, d⟩⟩ := c10_truncated_before_client_head_is_502 cfg st hv hbe hc ho hs hh hf hsent ht
+      exact ⟨Or.inr a, b, ⟨f, by rw [a]; exact d⟩⟩
+    · right
+      exact c10_truncated_after_head_closes cfg st hv hbe hc ho hh hf hsent ht hpt
 
-/-- `c10_failure_isolated` of DESIGN §6 for HTTP/1.x: a backend failure while a response is being
-    relayed never leaves the client connection open in a state where the next request's response
-    could be mistaken for the rest of this one — the failed relay clears keep-alive (the
+/-- `c10_failure_isolated` of DESIGN §6 for HTTP/1.x: a broken backend response never leaves the
+    client connection open in a state where the next request's response could be mistaken for
+    the rest of this one — once the head is on the wire the failed relay clears keep-alive (the
     connection is closed after the aborted message), and whenever keep-alive does survive
     write-prepare the message announces its own length.
-    MISSING: HTTP/2 (RST_STREAM on the affected stream only, other streams untouched) — h2.c is
-    not modelled; the harness observes END_STREAM there (reported). -/
+    MISSING: HTTP/2 multiplexing (other streams untouched) — the model has one stream (it gets
+    RST_STREAM: `c10_h2_failure_resets_stream`); other streams are observed end to end. -/
 theorem c10_failure_isolated_partial (cfg : Cfg) (st : St) (e : End) (hv : cfg.ver ≤ 1) (hh : cfg.head = false)
-    (hc : st.cstate = .write) (ho : st.open_ = true) (hs : st.started = true) (hf : st.finished = false)
-    (he : e = .rst ∨ e = .err) :
+    (hc : st.cstate = .write) (ho : st.open_ = true) (hhd : st.handler = true) (hf : st.finished = false)
+    (hsent : st.hdrSent = true) (hst : st.started = true) (hb : Broken cfg st e) :
     (onEnd cfg st e).keepAlive = false ∧
     ((writePrepare cfg st).keepAlive = true →
       (writePrepare cfg st).status = 204 ∨ (writePrepare cfg st).status = 304 ∨
       hasHdr (writePrepare cfg st).headers nContentLength = true ∨
       hasHdr (writePrepare cfg st).headers nTransferEncoding = true ∨
-      hasHdr (writePrepare cfg st).headers nUpgrade = true) :=
-  ⟨(c10_failure_after_head_aborts cfg st e hv hc ho hs hf (by rcases he with h | h <;> simp [h])).1,
-   fun hk => c10_keepalive_requires_framing cfg st hv hh hk⟩
-
-/-- The full `c10_broken_never_complete` is FALSE of the code: with stream-response-body = 0 a
-    chunked backend response that the backend cuts off after the first chunk (no last-chunk, EOF)
-    reaches the HTTP/1.1 client as a complete `200` with `Content-Length: 5` on a kept-alive
-    connection; an EOF-delimited response whose backend connection is reset is likewise presented
-    with a computed Content-Length (`Connection: close`).  (Reported by the check as a violation.) -/
-theorem c10_buffered_failure_looks_complete_witness :
-    (relay { be := .proxy, ver := 1, stream := 0 }
-       [ofString "HTTP/1.1 200 OK\r\nTransfer-Encoding: chunked\r\n\r\n5\r\nhello\r\n"] .eof).evs =
-      [.w (ofString "HTTP/1.1 200 OK\r\nContent-Length: 5\r\nDate: Sun, 09 Sep 2001 01:46:40 GMT\r\n\r\nhello")] ∧
-    (relay { be := .proxy, ver := 1, stream := 0 }
-       [ofString "HTTP/1.1 200 OK\r\nTransfer-Encoding: chunked\r\n\r\n5\r\nhello\r\n"] .eof).keepAlive = true ∧
-    (relay { be := .scgi, ver := 1, stream := 0 } [ofString "Status: 200\r\n\r\nhel"] .rst).evs =
-      [.w (ofString ("HTTP/1.1 200 OK\r\nContent-Length: 3\r\nConnection: close\r\n" ++
-                     "Date: Sun, 09 Sep 2001 01:46:40 GMT\r\n\r\nhel"))] := by
-  refine ⟨by decide, by decide, by decide⟩
+      hasHdr (writePrepare cfg st).headers nUpgrade = true) := by
+  refine ⟨?_, fun hk => c10_keepalive_requires_framing cfg st hv hh hk⟩
+  cases hb with
+  | noHead e hs _ _ _ => rw [hst] at hs; cases hs
+  | failed e hs hfail => exact (c10_failure_after_head_aborts cfg st e hv hc ho hs hsent hfail).1
+  | truncated hs hbe ht hpt => exact (c10_truncated_after_head_closes cfg st hv hbe hc ho hhd hf hsent ht hpt).1
 
 /-! non-vacuity of the composite theorems: concrete reachable states / complete runs -/
 
@@ -616,15 +711,42 @@ example : headerStep { be := .proxy, ver := 1 } {} (ofString "HTTP/1.1 2") =
 example : let st := onData { be := .proxy, ver := 1, stream := 1 } {}
                       (ofString "HTTP/1.1 200 OK\r\nContent-Length: 5\r\n\r\nhel")
     st.cstate = .write ∧ st.open_ = true ∧ st.started = true ∧ st.finished = false ∧ st.handler = true ∧
-    st.scratch > 0 ∧ st.sendChunked = false ∧ st.decodeChunked = false := by decide
+    st.scratch > 0 ∧ st.sendChunked = false ∧ st.decodeChunked = false ∧ st.hdrSent = true ∧
+    bodyTruncated st = true := by decide
 /-- ... of a chunked body passed through (decoder not done), and of an EOF-delimited body -/
 example : let st := onData { be := .proxy, ver := 1, stream := 1 } {}
                       (ofString "HTTP/1.1 200 OK\r\nTransfer-Encoding: chunked\r\n\r\n5\r\nhel")
     st.cstate = .write ∧ st.open_ = true ∧ st.started = true ∧ st.finished = false ∧ st.handler = true ∧
-    st.sendChunked = true ∧ st.dc.isSome = true ∧ st.dcDone = 0 := by decide
+    st.sendChunked = true ∧ st.dc.isSome = true ∧ st.dcDone = 0 ∧ st.hdrSent = true ∧
+    bodyTruncated st = true := by decide
 example : let st := onData { be := .scgi, ver := 1, stream := 1 } {} (ofString "Status: 200\r\n\r\nhel")
     st.cstate = .write ∧ st.open_ = true ∧ st.started = true ∧ st.finished = false ∧ st.handler = true ∧
     st.sendChunked = true ∧ st.dc = none ∧ st.scratch < 0 := by decide
+/-- the state after the head and part of the body were buffered (stream-response-body = 0): the
+    client-side head is not written yet; `Broken` / `HeadConsistent` are inhabited -/
+example : let st := onData { be := .proxy, ver := 1, stream := 0 } {}
+                      (ofString "HTTP/1.1 200 OK\r\nTransfer-Encoding: chunked\r\n\r\n5\r\nhello\r\n")
+    st.cstate = .handle ∧ st.open_ = true ∧ st.started = true ∧ st.finished = false ∧ st.handler = true ∧
+    st.hdrSent = false ∧ bodyTruncated st = true ∧ (st.sendChunked = true → st.dc.isSome = true) := by decide
+example : Broken { be := .proxy, ver := 1, stream := 0 }
+    (onData { be := .proxy, ver := 1, stream := 0 } {}
+      (ofString "HTTP/1.1 200 OK\r\nTransfer-Encoding: chunked\r\n\r\n5\r\nhello\r\n")) .eof :=
+  .truncated (by decide) (by decide) (by decide) (by decide)
+example : HeadConsistent (onData { be := .proxy, ver := 1, stream := 0 } {}
+      (ofString "HTTP/1.1 200 OK\r\nTransfer-Encoding: chunked\r\n\r\n5\r\nhello\r\n")) := Or.inl (by decide)
+example : HeadConsistent (onData { be := .proxy, ver := 1, stream := 1 } {}
+      (ofString "HTTP/1.1 200 OK\r\nContent-Length: 5\r\n\r\nhel")) := Or.inr (by decide)
+example : FailEnd { be := .fcgi, ver := 1 } {} .eof := Or.inr (Or.inr ⟨rfl, Or.inl rfl, rfl⟩)
+/-! the runs the pinned code presented as complete `200`s are `502`s now -/
+set_option maxRecDepth 100000 in
+example : (relay { be := .proxy, ver := 1, stream := 0 }
+       [ofString "HTTP/1.1 200 OK\r\nTransfer-Encoding: chunked\r\n\r\n5\r\nhello\r\n"] .eof).status = 502 ∧
+    (relay { be := .scgi, ver := 1, stream := 0 } [ofString "Status: 200\r\n\r\nhel"] .rst).status = 502 := by
+  refine ⟨by decide, by decide⟩
+/-! HTTP/2: HEADERS, DATA, then RST_STREAM -/
+set_option maxRecDepth 100000 in
+example : ((relay { be := .proxy, ver := 2, stream := 1 }
+       [ofString "HTTP/1.1 200 OK\r\nContent-Length: 5\r\n\r\nhel"] .rst).evs.getLast?) = some .rst := by decide
 /-- complete runs: a Content-Length response, a chunked response with a trailer (buffered: merged into
     the head, without CR), an interim response, a truncated Content-Length body (connection closed) -/
 example : (relay { be := .proxy, ver := 1, stream := 0 }
